@@ -246,6 +246,8 @@ type session struct {
 	acked   []*hx.Delivered
 	holdCh  chan struct{}
 	failSet map[int]bool
+	bgWG    sync.WaitGroup
+	failNext int32 // the next failNext saves of the mem back end are rejected (step "failnext")
 	tr      *Trace
 	rng     *rand.Rand
 	notifyCtr   int64
@@ -349,7 +351,7 @@ func RunSession(spec *SessSpec) *Trace {
 	tr.Env = env
 	defer env.Close()
 	setHookDelays(env.Log, spec.HookDelayMs)
-	defer setHookDelays(env.Log, nil)
+	defer setHookDelays(nil, nil)
 	env.Sim.Fragment = spec.Fragment
 	for name, id := range spec.Colls {
 		env.Sim.Collections["_default."+name] = id
@@ -494,6 +496,10 @@ func RunSession(spec *SessSpec) *Trace {
 				time.Sleep(time.Duration(spec.SlowSaveMs) * time.Millisecond)
 			}
 			if s.failSet[n] {
+				return hx.ErrStore
+			}
+			if atomic.LoadInt32(&s.failNext) > 0 {
+				atomic.AddInt32(&s.failNext, -1)
 				return hx.ErrStore
 			}
 			return nil
@@ -699,6 +705,29 @@ func RunSession(spec *SessSpec) *Trace {
 			for _, d := range pick {
 				s.ackOne(d)
 			}
+		case "armhook": // the next N hits of hook point Sel are delayed by Ms (a goroutine descheduled there)
+			n := st.N
+			if n == 0 {
+				n = 1
+			}
+			armHook(st.Sel, n, st.Ms)
+		case "ackbg": // acknowledge the oldest pending delivery of vBucket VB in the background ("waitbg" joins)
+			s.pmu.Lock()
+			var d *hx.Delivered
+			for k, p := range s.pending {
+				if int(p.VB) == st.VB {
+					d = p
+					s.pending = append(s.pending[:k], s.pending[k+1:]...)
+					break
+				}
+			}
+			s.pmu.Unlock()
+			if d != nil {
+				s.bgWG.Add(1)
+				go func() { defer s.bgWG.Done(); s.ackOne(d) }()
+			}
+		case "waitbg":
+			s.bgWG.Wait()
 		case "ackpar": // acknowledge everything pending, one goroutine per vBucket (per vBucket one at a time)
 			s.pmu.Lock()
 			byVB := map[uint16][]*hx.Delivered{}
@@ -779,6 +808,14 @@ func RunSession(spec *SessSpec) *Trace {
 			// give the save a chance to reach the store call
 			hx.WaitFor(2*time.Second, func() bool { return env.Log.Count("ctl.commit.call") > env.Log.Count("ctl.commit.ret") || true })
 			time.Sleep(2 * time.Millisecond)
+		case "failnext": // the next N saves of the mem back end are rejected by the store
+			n := st.N
+			if n == 0 {
+				n = 1
+			}
+			atomic.StoreInt32(&s.failNext, int32(n))
+		case "clearfail": // disarm "failnext" (a Commit() with nothing to save does not reach the store)
+			atomic.StoreInt32(&s.failNext, 0)
 		case "check":
 			s.barrier()
 			ck := &StoreCheck{}
